@@ -109,6 +109,34 @@ class AppStack:
         return self.app
 
 
+    async def reconnect(self, version, preformed=True):
+        """The SAME application object is disconnected and connected to another NCP (possibly of another
+        protocol version: a re-flashed or exchanged stick), as zigpy does after a connection loss."""
+        import bellows.uart as uart
+
+        await self.app.disconnect()
+        self.version = version
+        self.st = ncpsim.Stack(self.loop, version, None)
+        self.ncp, self.gw, self.trace = self.st.ncp, self.st.gw, self.st.trace
+        self.net = ncpmodel.install_network(self.ncp)
+        if preformed:
+            preformed_network(self.net)
+        st = self.st
+        saved = uart.connect
+
+        async def fake_connect(config, application, use_thread=True):
+            st.ncp.deliver = application.frame_received
+            return st.gw
+
+        uart.connect = fake_connect
+        try:
+            await self.app.connect()
+        finally:
+            uart.connect = saved
+        await self.app.start_network()
+        return self.app
+
+
 async def started_app(loop, version, acc, prop, preformed=True, **kw):
     """AppStack connected and started; a failing fault-free bring-up is a violation of `prop`."""
     ap = AppStack(loop, version)
